@@ -377,7 +377,9 @@ type ReadSched struct {
 }
 
 func GenReadSched(r *core.RNG) ReadSched {
-	switch r.Intn(5) {
+	switch r.Intn(6) {
+	case 5:
+		return ReadSched{Mode: "copy"} // the caller drains with io.Copy into a plain writer (uses WriteTo if the reader has one)
 	case 4:
 		return ReadSched{Mode: "big"} // a 1 MiB caller buffer: several chunks fit in one Read
 	case 0:
@@ -389,8 +391,42 @@ func GenReadSched(r *core.RNG) ReadSched {
 	}
 }
 
+// plainSink is an io.Writer and nothing else (no ReadFrom).
+type plainSink struct {
+	res    *DecResult
+	onRead func(int)
+}
+
+func (s *plainSink) Write(p []byte) (int, error) {
+	s.res.Released = append(s.res.Released, p...)
+	s.res.Reads++
+	if s.onRead != nil {
+		s.onRead(len(s.res.Released))
+	}
+	return len(p), nil
+}
+
 // Drain reads r to its terminal error under the schedule.
 func Drain(r io.Reader, rs ReadSched, res *DecResult, onRead func(released int)) {
+	if rs.Mode == "copy" {
+		// io.Copy reports a clean end of stream as a nil error
+		_, err := io.Copy(&plainSink{res, onRead}, r)
+		if err == nil {
+			err = io.EOF
+		}
+		res.Err = err
+		buf := make([]byte, 16)
+		n1, e1 := r.Read(buf)
+		n2, e2 := r.Read(buf[:1])
+		res.Sticky = n1 == 0 && n2 == 0 && e1 != nil && e2 != nil
+		if res.Err == io.EOF {
+			res.Sticky = res.Sticky && e1 == io.EOF && e2 == io.EOF
+		} else {
+			res.Sticky = res.Sticky && e1 != io.EOF && e2 != io.EOF
+		}
+		res.StickyNote = fmt.Sprintf("after io.Copy -> %v: (%d,%v) (%d,%v)", res.Err, n1, e1, n2, e2)
+		return
+	}
 	rng := core.NewRNG(rs.Seed ^ 0x4ead)
 	n0 := 200001
 	if rs.Mode == "big" {
